@@ -37,13 +37,15 @@ instance (c : Composition) : Decidable (CompValid c) :=
       c.selections.Pairwise (fun a b => a.intersect b = false))
     ⟨fun ⟨a, b, c⟩ => ⟨a, b, c⟩, fun ⟨a, b, c⟩ => ⟨a, b, c⟩⟩
 
-/-- the dictionary answers nothing for the empty key (F39: an entry with zero syllables breaks this) -/
+/-- the dictionary answers nothing for the empty key (F39: an entry with zero syllables breaks this).  No
+    premise of the C03 theorems any more: `find_best_phrase` answers `None` for an empty range. -/
 def NoEmptyKey (d : Dict) : Prop := ∀ strat, d.lookup [] strat = []
 
 /-- every phrase has as many characters as its key has syllables (F27: the compiler does not check it) -/
 def WellFormed (d : Dict) : Prop := ∀ key strat, ∀ p ∈ d.lookup key strat, p.text.length = key.length
 
-/-- every syllable of the composition has a single-syllable word under the strategy (F02 / F30 otherwise) -/
+/-- every syllable of the composition has a single-syllable word under the strategy: the quantifier of the
+    one-character clause of C03 (otherwise every engine shows the spelling of the syllable, F30) -/
 def HasWord (d : Dict) (strat : Strategy) (c : Composition) : Prop :=
   ∀ k, Sym.syl k ∈ c.symbols → d.lookup [k] strat ≠ []
 
